@@ -119,6 +119,20 @@ Theorem c06_selection_last_shard : forall part n cur ops v quiet, (v < n)%N -> F
 Proof. exact sel_last_shard. Qed.
 Print Assumptions c06_selection_last_shard.
 
+Theorem c06_refused_set_shard_invisible : forall part n cur ops v rest, (n <= v)%N ->
+  sel_run part n cur (ops ++ SelShard v :: rest) = sel_run part n cur (ops ++ rest).
+Proof. exact sel_refused_invisible. Qed.
+Print Assumptions c06_refused_set_shard_invisible.
+
+(** The selection is always something an event of the history named: the initial one, the
+    partition of a delivered key, or an in-range SET SHARD value. *)
+Theorem c06_selection_provenance : forall part n ops cur,
+  sel_run part n cur ops = cur \/
+  (exists k, In (SelKey k) ops /\ sel_run part n cur ops = Some (part k)) \/
+  (exists v, In (SelShard v) ops /\ (v < n)%N /\ sel_run part n cur ops = Some v).
+Proof. exact sel_run_provenance. Qed.
+Print Assumptions c06_selection_provenance.
+
 Theorem c06_only_selected_shard : forall role sh addrs a, In a (candidates role sh addrs) ->
   a_shard a = sh /\ In a addrs /\ (forall r, role = Some r -> a_role a = r).
 Proof. exact candidates_shard. Qed.
